@@ -13,7 +13,8 @@ import (
 // A function that receives a preferences struct (traversePreferences,
 // assignPreferences, …) and hands a value of that same type on to a callee
 // passes what it was given: its own parameter, or a copy of it with named
-// fields overridden. A fresh literal at such a site silently drops every
+// fields overridden (but never overridden for a call of the function itself:
+// a recursion continues the same traversal under the same preferences). A fresh literal at such a site silently drops every
 // preference the caller set (DontFollowAlias, IncludeMapKeys, …) for that
 // part of the work only.
 
@@ -54,7 +55,10 @@ func pfClassify(fn *ssa.Function, param *ssa.Parameter, v ssa.Value) string {
 				for _, ref := range *refs {
 					if st, ok := ref.(*ssa.Store); ok && st.Addr == al {
 						if pfClassify(fn, param, st.Val) != "fresh" {
-							return "copy-with-overrides"
+							if fields := fieldsStoredOn(al); len(fields) > 0 {
+								return "copy-with-overrides"
+							}
+							return "forwarded"
 						}
 					}
 				}
@@ -127,6 +131,10 @@ func rulePF(c *Ctx, rule string, min int) {
 		}
 		pos := c.P.pos(s.call.Pos())
 		switch {
+		case s.how == "copy-with-overrides" && s.call.Common().StaticCallee() == s.fn:
+			// a function calling itself continues the same work on another node: what it was
+			// told at the start holds for the whole traversal
+			r.Finding(rule, key, pos, fmt.Sprintf("%s calls itself with its %s parameter changed (a field is assigned before the call): the preferences the caller chose hold only for the first level of the traversal", funcKey(s.fn), s.tname))
 		case s.how != "fresh":
 			r.Discharge(rule, key, pos, "the "+s.tname+" parameter is "+s.how)
 		case pfAccepted[key] != "":
@@ -135,4 +143,31 @@ func rulePF(c *Ctx, rule string, min int) {
 			r.Finding(rule, key, pos, fmt.Sprintf("%s receives %s from its caller but hands %s a freshly built one: every preference the caller set is dropped for this part of the work", funcKey(s.fn), s.tname, s.callee))
 		}
 	}
+}
+
+// fieldsStoredOn: names of the fields of the local struct al (and of structs
+// nested in it) that are assigned somewhere in the function.
+func fieldsStoredOn(al *ssa.Alloc) []string {
+	var out []string
+	var visit func(v ssa.Value, prefix string, d int)
+	visit = func(v ssa.Value, prefix string, d int) {
+		if d > 3 || v.Referrers() == nil {
+			return
+		}
+		for _, ref := range *v.Referrers() {
+			fa, ok := ref.(*ssa.FieldAddr)
+			if !ok || fa.X != v || fa.Referrers() == nil {
+				continue
+			}
+			name := prefix + fieldName(fa)
+			for _, r2 := range *fa.Referrers() {
+				if st, ok := r2.(*ssa.Store); ok && st.Addr == ssa.Value(fa) {
+					out = append(out, name)
+				}
+			}
+			visit(fa, name+".", d+1)
+		}
+	}
+	visit(al, "", 0)
+	return out
 }
